@@ -46,7 +46,7 @@ ASSUMPTIONS = [
 A_QUICK = [0.0, 1.0, 2.0, 3.0, -5.0, 1 + 1e-4, 1 + 1e-9, 1 + 1e-13, 1e3, 1e3 + 1]
 A_THOROUGH = A_QUICK + [7.25, -1e3, 1e3 + 1e-5]
 U_LETTERS = [0.0, 0.25, 0.5, 1.0]
-LADDERS = [(0.0, 1.0, 2.0), (0.5, 1.0, 2.5), (0.0, 0.0, 2.0), (-1.0, 1.5, 1.5)]
+LADDERS = [(0.0, 1.0, 2.0), (0.5, 1.0, 2.5), (0.0, 0.0, 2.0), (-1.0, 1.5, 1.5), (0.5, 0.5, 0.5)]   # the last: thorough only
 P_LETTERS = [0.0, 1.0, 2.5]
 P_CENTRES = [0.75, 1.0]
 RES = Fr(4, 10 ** 12)      # 4e-12
@@ -76,14 +76,15 @@ def cases(tier, seed):
         for base in bases:
             for idx in itertools.combinations_with_replacement(range(len(U_LETTERS)), 4):
                 yield {"kind": "shift", "u": list(idx), "spread": spread, "base": base}
-    for cen in range(len(LADDERS)):
-        for c0 in range(len(LADDERS)):
-            yield {"kind": "groups", "centre": cen, "c0": c0}
+    nlad = 4 if quick else 5
+    for cen in range(nlad):
+        for c0 in range(nlad):
+            yield {"kind": "groups", "centre": cen, "c0": c0, "nlad": nlad}
     for cen in range(len(P_CENTRES)):
         for head in itertools.product(range(3), repeat=4):
             yield {"kind": "paral", "centre": cen, "head": list(head), "ders": [0, 1] if quick else [0, 1, 2, 3, -1]}
     for system in ("generic3", "flat2", "overlap4"):
-        for grid in ("paral", "tetra"):
+        for grid in (("paral", "tetra") if quick else ("paral", "tetra", "paral2", "tetra2")):
             yield {"kind": "run", "system": system, "grid": grid}
 
 
@@ -296,7 +297,7 @@ def run_groups(case):
     nontriv = []
     nev = 0
     efsets = {"wide": EF_WIDE, "narrow": EF_NARROW, "one": EF_ONE}
-    for c1, c2, c3 in itertools.product(range(len(LADDERS)), repeat=3):
+    for c1, c2, c3 in itertools.product(range(case["nlad"]), repeat=3):
         lad = [LADDERS[case["c0"]], LADDERS[c1], LADDERS[c2], LADDERS[c3]]
         eCenter = np.array([cen], dtype=float)                     # (1, nb)
         eCorners = np.array([lad], dtype=float)                    # (1, 4, nb)
@@ -481,8 +482,12 @@ def run_run(case, seed):
     s = make_run_system(case["system"], seed)
     if case["grid"] == "paral":
         grid = wb.Grid(s, NK=(4, 2, 2), NKFFT=(2, 1, 2))
-    else:
+    elif case["grid"] == "paral2":
+        grid = wb.Grid(s, NK=(3, 6, 4), NKFFT=(1, 3, 2))
+    elif case["grid"] == "tetra":
         grid = wb.grid.GridTetra(s, length=3.0, NKFFT=(2, 1, 2))
+    else:
+        grid = wb.grid.GridTetra(s, length=5.0, NKFFT=(1, 2, 1))
     # Fermi levels: far below, inside (generic, never on a corner energy), far above
     if case["system"] == "flat2":
         inner = 10.0005 + 1e-3 * np.linspace(-6.13, 6.29, 14)
@@ -553,4 +558,4 @@ def finish(tier, cases, results):
     nA = len(A_QUICK if tier == "quick" else A_THOROUGH)
     return {"cases_by_kind": by, "corner_alphabet_size": nA, "ordered_corner_tuples": nA ** 4,
             "weights_tetra_values_compared_w4_shift": ev,
-            "paral_corner_arrays": 3 ** 8 * len(P_CENTRES), "group_corner_assignments": len(LADDERS) ** 5}
+            "paral_corner_arrays": 3 ** 8 * len(P_CENTRES), "group_corner_assignments": (4 if tier == "quick" else 5) ** 5}
